@@ -103,6 +103,19 @@ CLAIMED = {
              "JSONSchema.from_dict(...).to_dict() round trip; totality is exercised over every type of the grammar, random dataclasses with defaults of every type under 5-9 Configs, and self-references.",
         note="Types the builder itself declares unsupported (NotImplementedError: re.Pattern) are outside the schema-supported grammar and counted as unmodelled.",
         tech="TLC trace validation of recorded build events against a TLA+ builder-context state machine", ref="6 C20"),
+    "C18": dict(
+        text="Heap.tla defines SharedPaths(T, cx, v): the set of positions of mutable containers the output must (and may only) share by identity -- exactly positions whose origin type is in "
+             "no_copy_collections and whose elements are conversion-free (ConvFree, including the customisation Winner); TLC proves DefaultSharesNothing and OnlyListed and emits, for 28 shapes x all "
+             "N subsets of {list,dict,set} x mixin/plain x values, the expected wire form and expected shared paths; the replayer compares id()-graphs in BOTH directions (no hidden sharing, promised "
+             "sharing present), deep-compares the argument before/after, and checks that deserialization shares nothing with and does not mutate its input.",
+        note="Any positions are excepted as in the statement (AnyPaths). Format dialects' no_copy (orjson/msgpack/toml) are modelled by the same option.",
+        tech="TLA+ sharing model (paths) + TLC enumeration replayed with identity-graph comparison", ref="6 C18"),
+    "C19": dict(
+        text="Hooks.tla gives the closed-form pre/post-order traversal (SerTrace / DeserTrace) and the reference Pack/Unpack apply fixed observable hook transformations; TLC proves Once and PreBeforePost "
+             "and emits expected result + expected hook trace for all hook-subset / context-flag combinations on Outer/Inner/union members, bare list / union / dict shapes; each is replayed through "
+             "to_dict/from_dict, five format mixins and the basic codec, comparing both the result and the recorded hook log (with the context object's identity).",
+        note="Speculative __pre_deserialize__ calls of failing union candidates are allowed; speculative serialize hooks are not.",
+        tech="TLA+ traversal spec as oracle for recorded hook traces (replay)", ref="6 C19"),
 }
 REASON_PENDING = "check not built yet in this round (construction order DESIGN.md 11); not claimed"
 
